@@ -88,6 +88,12 @@ func checkC18(c *Ctx) {
 			c.undecided("C18-WALK", "Stack.nestedPathGetSet", "lookup", walker.Pos(), "expected exactly one LookupSymbol call in the package walker")
 		} else {
 			lk := calls[0].(ssa.Instruction)
+			// the look-up that precedes the privacy test must not be the one that writes
+			if args := calls[0].Common().Args; len(args) >= 3 {
+				c.check(isNilConst(args[2]), "C18-WALK", "Stack.nestedPathGetSet", "look-up before the privacy test does not write", lk.Pos(),
+					"the look-up is a pure read (setVal is nil); the member is assigned only after errIfPrivate accepted the name",
+					"the look-up that runs before the privacy test is handed the value to assign: a refused assignment to a private member has already overwritten it when the error is returned")
+			}
 			nSink := 0
 			sink := func(in ssa.Instruction) bool {
 				switch x := in.(type) {
